@@ -252,10 +252,10 @@ def save_load(p, res, where, name="c16.json"):
     return p2
 
 
-CFG = gen.Cfg(onesided=4, servable=3, facilities=True, max_tasks=6, max_time=[40], abs_max=12, chain_components=True, due=True,
+CFG = gen.Cfg(onesided=2, servable=2, facilities=True, max_tasks=6, max_time=[40], abs_max=12, chain_components=True, due=True,
               work_pool=[0.0, 0.5, 1.0, 1.0, 2.0, 3.0])
 CFG_N = CFG.copy(nested="assembly")
-OPS = ["sim", "pause", "backward", "save_load", "save_load"]
+OPS = ["sim", "pause", "pause", "backward", "save_load", "save_load"]
 
 
 @st.composite
@@ -283,7 +283,7 @@ def strategy(tier):
 
 def budget(tier):
     if tier == "quick":
-        return {"cases": 800, "shards": 4}
+        return {"cases": 1600, "shards": 8}
     return {"cases": 40000, "shards": 16}
 
 
